@@ -248,9 +248,23 @@ func sameValueHigherPrec(f *big.Float) (spec.Num, bool) {
 var strPool = []string{"", "a", "b", "ab", "\u00e9", "e\u0301", "\u00c5", "A\u030a", "\u212b", "\uac00", "\u1100\u1161", "\u1e9b\u0323", "\u017f\u0323\u0307",
 	"foo", "fo\u00f6", "foo\u0308", "z", "a\u0323\u0301", "a\u0301\u0323", "\u1ea1\u0301"}
 
+// longTwins are strings that agree on a long prefix (64, 65, 256, 1024 bytes)
+// and differ only behind it.
+var longTwins = func() []string {
+	var out []string
+	for _, n := range []int{64, 65, 256, 1024} {
+		body := strings.Repeat("x", n)
+		out = append(out, body, body+"a", body+"b")
+	}
+	return out
+}()
+
 func drawStr(t *rapid.T) string {
-	if rapid.IntRange(0, 3).Draw(t, "strsrc") == 0 {
+	switch rapid.IntRange(0, 7).Draw(t, "strsrc") {
+	case 0, 1:
 		return gen.String().Draw(t, "s")
+	case 4:
+		return rapid.SampledFrom(longTwins).Draw(t, "longtwin")
 	}
 	return rapid.SampledFrom(strPool).Draw(t, "spool")
 }
